@@ -12,6 +12,7 @@ from spacepackets.cfdp.defs import (PduType, Direction, TransmissionMode, CrcFla
                                     SegmentMetadataFlag, UnsupportedCfdpVersion)
 from spacepackets.cfdp.exceptions import InvalidCrc
 from spacepackets.cfdp.conf import PduConfig
+from spacepackets.cfdp.pdu.header import PduHeader
 from spacepackets.cfdp.pdu.file_data import (FileDataPdu, FileDataParams, SegmentMetadata, RecordContinuationState,
                                              get_max_file_seg_len_for_max_packet_len_and_pdu_cfg)
 
@@ -203,18 +204,16 @@ def fd_rt_m_large_crc(mode: EnumOf(TransmissionMode), segctrl: EnumOf(Segmentati
 
 # ------------------------------------------------------------------------------------------------ decoding arbitrary octets (C10)
 
-def unpack_any_case(data, segmeta, large, crc):
-    """data: any octet string of at least 4 octets whose segment-metadata, large-file and CRC bits are as given"""
+def unpack_any_case(data, we, ws, segmeta, large, crc):
+    """data: any octet string of at least 4 octets whose width codes, segment-metadata, large-file and CRC bits are as given
+    (the obligations below enumerate all of them; the remaining width codes are in unpack/any/invalid-width-code)"""
     requires(len(data) >= 4)
-    requires(bits(data[3], 3, 3) == segmeta)
-    requires(bits(data[0], 0, 0) == large)
-    requires(bits(data[0], 1, 1) == crc)
+    requires(both(bits(data[3], 6, 4) == we - 1, bits(data[3], 2, 0) == ws - 1, bits(data[3], 3, 3) == segmeta))
+    requires(both(bits(data[0], 0, 0) == large, bits(data[0], 1, 1) == crc))
     o = outcome(FileDataPdu.unpack, data)
     ensures("raises-only", o.ok or o.raised(ValueError, InvalidCrc, UnsupportedCfdpVersion))
     if o.ok:
         g = o.value
-        we = bits(data[3], 6, 4) + 1
-        ws = bits(data[3], 2, 0) + 1
         hl = 4 + 2 * we + ws
         n = hl + data[1] * 256 + data[2]
         ensures("buffer-holds-pdu", len(data) >= n)
@@ -237,48 +236,140 @@ def unpack_any_case(data, segmeta, large, crc):
         ensures("offset-inside", k + fl <= end)
         ensures("offset", g.offset == from_be(data[k:k + fl]))
         ensures("file-data-exact", g.file_data == data[k + fl:end])
-        ensures("repack", g.pack() == data[0:n])
-        ensures("prefix-only", same_state(g, FileDataPdu.unpack(data[0:n])))
+        ensures("header-as-decoded-alone", same_state(g.pdu_header, PduHeader.unpack(data)))
 
 
-@obligation(["C07", "C09", "C10", "C04"], "FileDataPdu.unpack/any/no-metadata/normal-file/no-crc", verifies=V_UNPACK)
-def fd_unpack_any_000(data: Bytes):
-    unpack_any_case(data, 0, 0, 0)
+# one obligation per (segment metadata flag, large-file flag, CRC flag, group of entity-ID widths); together they cover
+# every octet string of >= 4 octets with valid width codes (the others: invalid-width-code, shorter-than-fixed-header)
+
+@obligation(["C07", "C09", "C10", "C04"], "FileDataPdu.unpack/any/no-metadata/normal-file/no-crc/entity-id-width-1-2", verifies=V_UNPACK)
+def fd_unpack_any_000_1_2(data: Bytes, we: Choice(1, 2), ws: W):
+    unpack_any_case(data, we, ws, 0, 0, 0)
 
 
-@obligation(["C07", "C09", "C10", "C04"], "FileDataPdu.unpack/any/no-metadata/normal-file/crc", verifies=V_UNPACK)
-def fd_unpack_any_001(data: Bytes):
-    unpack_any_case(data, 0, 0, 1)
+@obligation(["C07", "C09", "C10", "C04"], "FileDataPdu.unpack/any/no-metadata/normal-file/no-crc/entity-id-width-4-8", verifies=V_UNPACK)
+def fd_unpack_any_000_4_8(data: Bytes, we: Choice(4, 8), ws: W):
+    unpack_any_case(data, we, ws, 0, 0, 0)
 
 
-@obligation(["C07", "C09", "C10", "C04"], "FileDataPdu.unpack/any/no-metadata/large-file/no-crc", verifies=V_UNPACK)
-def fd_unpack_any_010(data: Bytes):
-    unpack_any_case(data, 0, 1, 0)
+@obligation(["C07", "C09", "C10", "C04"], "FileDataPdu.unpack/any/no-metadata/normal-file/crc/entity-id-width-1-2", verifies=V_UNPACK)
+def fd_unpack_any_001_1_2(data: Bytes, we: Choice(1, 2), ws: W):
+    unpack_any_case(data, we, ws, 0, 0, 1)
 
 
-@obligation(["C07", "C09", "C10", "C04"], "FileDataPdu.unpack/any/no-metadata/large-file/crc", verifies=V_UNPACK)
-def fd_unpack_any_011(data: Bytes):
-    unpack_any_case(data, 0, 1, 1)
+@obligation(["C07", "C09", "C10", "C04"], "FileDataPdu.unpack/any/no-metadata/normal-file/crc/entity-id-width-4-8", verifies=V_UNPACK)
+def fd_unpack_any_001_4_8(data: Bytes, we: Choice(4, 8), ws: W):
+    unpack_any_case(data, we, ws, 0, 0, 1)
 
 
-@obligation(["C07", "C09", "C10", "C04"], "FileDataPdu.unpack/any/metadata/normal-file/no-crc", verifies=V_UNPACK)
-def fd_unpack_any_100(data: Bytes):
-    unpack_any_case(data, 1, 0, 0)
+@obligation(["C07", "C09", "C10", "C04"], "FileDataPdu.unpack/any/no-metadata/large-file/no-crc/entity-id-width-1-2", verifies=V_UNPACK)
+def fd_unpack_any_010_1_2(data: Bytes, we: Choice(1, 2), ws: W):
+    unpack_any_case(data, we, ws, 0, 1, 0)
 
 
-@obligation(["C07", "C09", "C10", "C04"], "FileDataPdu.unpack/any/metadata/normal-file/crc", verifies=V_UNPACK)
-def fd_unpack_any_101(data: Bytes):
-    unpack_any_case(data, 1, 0, 1)
+@obligation(["C07", "C09", "C10", "C04"], "FileDataPdu.unpack/any/no-metadata/large-file/no-crc/entity-id-width-4-8", verifies=V_UNPACK)
+def fd_unpack_any_010_4_8(data: Bytes, we: Choice(4, 8), ws: W):
+    unpack_any_case(data, we, ws, 0, 1, 0)
 
 
-@obligation(["C07", "C09", "C10", "C04"], "FileDataPdu.unpack/any/metadata/large-file/no-crc", verifies=V_UNPACK)
-def fd_unpack_any_110(data: Bytes):
-    unpack_any_case(data, 1, 1, 0)
+@obligation(["C07", "C09", "C10", "C04"], "FileDataPdu.unpack/any/no-metadata/large-file/crc/entity-id-width-1-2", verifies=V_UNPACK)
+def fd_unpack_any_011_1_2(data: Bytes, we: Choice(1, 2), ws: W):
+    unpack_any_case(data, we, ws, 0, 1, 1)
 
 
-@obligation(["C07", "C09", "C10", "C04"], "FileDataPdu.unpack/any/metadata/large-file/crc", verifies=V_UNPACK)
-def fd_unpack_any_111(data: Bytes):
-    unpack_any_case(data, 1, 1, 1)
+@obligation(["C07", "C09", "C10", "C04"], "FileDataPdu.unpack/any/no-metadata/large-file/crc/entity-id-width-4-8", verifies=V_UNPACK)
+def fd_unpack_any_011_4_8(data: Bytes, we: Choice(4, 8), ws: W):
+    unpack_any_case(data, we, ws, 0, 1, 1)
+
+
+@obligation(["C07", "C09", "C10", "C04"], "FileDataPdu.unpack/any/metadata/normal-file/no-crc/entity-id-width-1", verifies=V_UNPACK)
+def fd_unpack_any_100_1(data: Bytes, we: Choice(1), ws: W):
+    unpack_any_case(data, we, ws, 1, 0, 0)
+
+
+@obligation(["C07", "C09", "C10", "C04"], "FileDataPdu.unpack/any/metadata/normal-file/no-crc/entity-id-width-2", verifies=V_UNPACK)
+def fd_unpack_any_100_2(data: Bytes, we: Choice(2), ws: W):
+    unpack_any_case(data, we, ws, 1, 0, 0)
+
+
+@obligation(["C07", "C09", "C10", "C04"], "FileDataPdu.unpack/any/metadata/normal-file/no-crc/entity-id-width-4", verifies=V_UNPACK)
+def fd_unpack_any_100_4(data: Bytes, we: Choice(4), ws: W):
+    unpack_any_case(data, we, ws, 1, 0, 0)
+
+
+@obligation(["C07", "C09", "C10", "C04"], "FileDataPdu.unpack/any/metadata/normal-file/no-crc/entity-id-width-8", verifies=V_UNPACK)
+def fd_unpack_any_100_8(data: Bytes, we: Choice(8), ws: W):
+    unpack_any_case(data, we, ws, 1, 0, 0)
+
+
+@obligation(["C07", "C09", "C10", "C04"], "FileDataPdu.unpack/any/metadata/normal-file/crc/entity-id-width-1", verifies=V_UNPACK)
+def fd_unpack_any_101_1(data: Bytes, we: Choice(1), ws: W):
+    unpack_any_case(data, we, ws, 1, 0, 1)
+
+
+@obligation(["C07", "C09", "C10", "C04"], "FileDataPdu.unpack/any/metadata/normal-file/crc/entity-id-width-2", verifies=V_UNPACK)
+def fd_unpack_any_101_2(data: Bytes, we: Choice(2), ws: W):
+    unpack_any_case(data, we, ws, 1, 0, 1)
+
+
+@obligation(["C07", "C09", "C10", "C04"], "FileDataPdu.unpack/any/metadata/normal-file/crc/entity-id-width-4", verifies=V_UNPACK)
+def fd_unpack_any_101_4(data: Bytes, we: Choice(4), ws: W):
+    unpack_any_case(data, we, ws, 1, 0, 1)
+
+
+@obligation(["C07", "C09", "C10", "C04"], "FileDataPdu.unpack/any/metadata/normal-file/crc/entity-id-width-8", verifies=V_UNPACK)
+def fd_unpack_any_101_8(data: Bytes, we: Choice(8), ws: W):
+    unpack_any_case(data, we, ws, 1, 0, 1)
+
+
+@obligation(["C07", "C09", "C10", "C04"], "FileDataPdu.unpack/any/metadata/large-file/no-crc/entity-id-width-1", verifies=V_UNPACK)
+def fd_unpack_any_110_1(data: Bytes, we: Choice(1), ws: W):
+    unpack_any_case(data, we, ws, 1, 1, 0)
+
+
+@obligation(["C07", "C09", "C10", "C04"], "FileDataPdu.unpack/any/metadata/large-file/no-crc/entity-id-width-2", verifies=V_UNPACK)
+def fd_unpack_any_110_2(data: Bytes, we: Choice(2), ws: W):
+    unpack_any_case(data, we, ws, 1, 1, 0)
+
+
+@obligation(["C07", "C09", "C10", "C04"], "FileDataPdu.unpack/any/metadata/large-file/no-crc/entity-id-width-4", verifies=V_UNPACK)
+def fd_unpack_any_110_4(data: Bytes, we: Choice(4), ws: W):
+    unpack_any_case(data, we, ws, 1, 1, 0)
+
+
+@obligation(["C07", "C09", "C10", "C04"], "FileDataPdu.unpack/any/metadata/large-file/no-crc/entity-id-width-8", verifies=V_UNPACK)
+def fd_unpack_any_110_8(data: Bytes, we: Choice(8), ws: W):
+    unpack_any_case(data, we, ws, 1, 1, 0)
+
+
+@obligation(["C07", "C09", "C10", "C04"], "FileDataPdu.unpack/any/metadata/large-file/crc/entity-id-width-1", verifies=V_UNPACK)
+def fd_unpack_any_111_1(data: Bytes, we: Choice(1), ws: W):
+    unpack_any_case(data, we, ws, 1, 1, 1)
+
+
+@obligation(["C07", "C09", "C10", "C04"], "FileDataPdu.unpack/any/metadata/large-file/crc/entity-id-width-2", verifies=V_UNPACK)
+def fd_unpack_any_111_2(data: Bytes, we: Choice(2), ws: W):
+    unpack_any_case(data, we, ws, 1, 1, 1)
+
+
+@obligation(["C07", "C09", "C10", "C04"], "FileDataPdu.unpack/any/metadata/large-file/crc/entity-id-width-4", verifies=V_UNPACK)
+def fd_unpack_any_111_4(data: Bytes, we: Choice(4), ws: W):
+    unpack_any_case(data, we, ws, 1, 1, 1)
+
+
+@obligation(["C07", "C09", "C10", "C04"], "FileDataPdu.unpack/any/metadata/large-file/crc/entity-id-width-8", verifies=V_UNPACK)
+def fd_unpack_any_111_8(data: Bytes, we: Choice(8), ws: W):
+    unpack_any_case(data, we, ws, 1, 1, 1)
+
+
+@obligation(["C07", "C10"], "FileDataPdu.unpack/any/invalid-width-code", verifies=V_UNPACK)
+def fd_unpack_bad_width(data: Bytes):
+    requires(len(data) >= 4)
+    we = bits(data[3], 6, 4) + 1
+    ws = bits(data[3], 2, 0) + 1
+    requires(not both(either(we == 1, we == 2, we == 4, we == 8), either(ws == 1, ws == 2, ws == 4, ws == 8)))
+    o = outcome(FileDataPdu.unpack, data)
+    ensures("refused", o.raised(ValueError, UnsupportedCfdpVersion))
 
 
 @obligation(["C07", "C10"], "FileDataPdu.unpack/any/shorter-than-fixed-header", verifies=V_UNPACK)
